@@ -276,14 +276,25 @@ class KindEngine:
 
         runs_objs = []
 
+        pend = {}
+
         def items():
             objs = [self.mk(r, d, f"items[{i}]") for i, d in enumerate(combo)]
             runs_objs.append(objs)  # explore() re-executes per path: outcome k belongs to run k
+            pend.clear()
+            for i, d in enumerate(combo):
+                if d[0] == "H":
+                    nm = f"h_tmp_items{i}"
+                    r.stubs[(f"items[{i}]", "get_name")] = nm
+                    pend[nm] = AObj("Sequence", {"name": "pending_" + nm, "effects": [], "effect_ops": [], "type": Opaque("effect_type")}, label=f"pending({i})", origin="pending", opaque=False)
             return objs
+
+        def self_over():
+            return {"il_ops_holder": AObj("ILOpsHolder", {"hybrid_effect_dict": pend, "hybrid_op_count": 9}, label="holder", opaque=True)}
 
         self.runs += 1
         try:
-            fi, outs = r.run(name, items, max_runs=96, may_subclass=False)
+            fi, outs = r.run(name, items, self_over=self_over, max_runs=96, may_subclass=False)
         except AnalysisError as e:
             self.errors.append(f"{key_alt} [{', '.join(short(d) for d in combo)}]: {e}")
             return set()
